@@ -37,6 +37,8 @@ Lemma table_passes_id : gen.T18.RESTORE_PASSES_ID = true.
 Proof. reflexivity. Qed.
 Lemma table_checks_free : gen.T18.RESTORE_CHECKS_FREE = true.
 Proof. reflexivity. Qed.
+Lemma table_delete_first : gen.T18.DELETE_BEFORE_TOKENIZE = true.
+Proof. reflexivity. Qed.
 
 Lemma shas_In n l : shas n l = true <-> In n (snames l).
 Proof.
@@ -232,9 +234,18 @@ Record MLOOP (s : pst) (R : list (name * pev)) : Prop := {
   m_done : forall c, In c (p_done s) -> ~ In c (scmds (p_sched s)) /\ ~ In c (dcmds (p_dict s)) /\ ~ In c (dcmds R);
   m_nd : NoDup (p_done s);                                              (* <- no one-shot request was executed twice *)
   m_lt : forall c, In c (p_done s) -> (c < p_ncmd s)%N;
-  m_rs : forall e, In e (p_sched s) -> ~ In (s_cmd e) (dcmds R) }.     (* what is scheduled is not waiting to be restored *)
+  m_rs : forall e, In e (p_sched s) -> ~ In (s_cmd e) (dcmds R);       (* what is scheduled is not waiting to be restored *)
+  m_kb : forall i, In (Auto i) (keys (p_dict s)) -> (i < p_counter s)%N;                 (* listed ids are below the counter *)
+  m_ds : p_loaded s = true -> forall k, In k (keys (p_dict s)) -> In k (snames (p_sched s)) }.  (* listed => scheduled *)
 Definition minv (s : pst) : Prop :=
   MLOOP s [] /\ (p_loaded s = false -> p_sched s = [] /\ p_pickle s = p_dict s).
+
+Lemma s_add_auto_ok t cmd rem per s : (forall e i, In e (p_sched s) -> s_name e = Auto i -> (i < p_counter s)%N) ->
+  exists s1 id, s_add t None cmd rem per s = (s1, Ok id).
+Proof.
+  intros H. unfold s_add. simpl. destruct (shas (Auto (p_counter s)) (p_sched s)) eqn:E; eauto.
+  apply shas_In in E. apply in_map_iff in E. destruct E as [e [En He]]. specialize (H e _ He En). lia.
+Qed.
 
 Lemma mloop_attempt t nm K ev rem per s R :
   MLOOP s ((K, ev) :: R) ->
@@ -244,7 +255,7 @@ Lemma mloop_attempt t nm K ev rem per s R :
   (forall p c f, ev = PRepeat p c f -> nm = Some K) ->
   MLOOP (attempt t nm K ev rem per s) R.
 Proof.
-  intros [L G SD Dn ND LT RS] H1 H2 H3 H4.
+  intros [L G SD Dn ND LT RS KB DS] H1 H2 H3 H4.
   pose proof (linv_attempt t nm K ev rem per s R L H1 H2 H3 H4) as L'.
   destruct (attempt_frame t nm K ev rem per s) as (Fg & Fd & _ & _).
   assert (HinR : In (K, ev) ((K, ev) :: R)) by (left; auto).
@@ -257,7 +268,10 @@ Proof.
   assert (RS' : forall e, In e (p_sched s) -> ~ In (s_cmd e) (dcmds R)).
   { intros e He X. apply (RS e He). right. exact X. }
   unfold attempt in *. destruct (s_add_cases t nm (pcmd ev) rem per s) as (Ed & En & Ec & Hc).
-  destruct (s_add t nm (pcmd ev) rem per s) as [s1 [id|ex]]; simpl in *.
+  pose proof (s_add_frame t nm (pcmd ev) rem per s) as (_ & _ & Fl & _ & _).
+  assert (NoRaiseNone : nm = None -> forall s1 ex, s_add t nm (pcmd ev) rem per s <> (s1, Raise ex)).
+  { intros -> s1 ex X. destruct (s_add_auto_ok t (pcmd ev) rem per s (q_auto _ _ _ _ _ L)) as (s2 & id2 & Y). congruence. }
+  destruct (s_add t nm (pcmd ev) rem per s) as [s1 [id|ex]] eqn:SA; simpl in *.
   - destruct Hc as [(_ & [e X] & _)|(n & Eok & ES & Hfree & Hn)]; [discriminate|]. inversion Eok; subst n. clear Eok.
     constructor; simpl; auto.
     + rewrite ES, Fg. intros e [<-|He]; simpl; auto.
@@ -271,7 +285,14 @@ Proof.
     + rewrite Fd. exact ND.
     + rewrite Fd, En. exact LT.
     + rewrite ES. intros e [<-|He]; simpl; auto.
+    + rewrite Ed. intros i Hi. destruct (dset_keys_in _ _ _ _ Hi) as [X|X]; [|specialize (KB i X); lia].
+      destruct Hn as [Hs|[_ [Hid Hcc]]].
+      * destruct H1 as [Hk|[Hk _]]; [|congruence]. rewrite Hk in Hs. inversion Hs as [HK0].
+        assert (HKi : K = Auto i) by congruence. specialize (H3 i HKi Hk). lia.
+      * assert (i = p_counter s) by congruence. lia.
+    + rewrite ES, Ed, Fl. intros Hl k Hk. destruct (dset_keys_in _ _ _ _ Hk) as [->|X]; [left; reflexivity|right; apply DS; auto].
   - destruct Hc as [(ES & _ & Hin)|(n & Eok & _)]; [|discriminate].
+    assert (HK : nm = Some K) by (destruct H1 as [Hk|[Hk _]]; auto; exfalso; exact (NoRaiseNone Hk s1 ex eq_refl)).
     constructor; simpl; auto.
     + rewrite ES, Fg. exact G.
     + rewrite ES, Ed. intros e He. apply dset_keys_mono. auto.
@@ -283,6 +304,9 @@ Proof.
     + rewrite Fd. exact ND.
     + rewrite Fd, En. exact LT.
     + rewrite ES. exact RS'.
+    + rewrite Ed. intros i Hi. destruct (dset_keys_in _ _ _ _ Hi) as [X|X]; [|specialize (KB i X); lia].
+      specialize (H3 i (eq_sym X) HK). lia.
+    + rewrite ES, Ed, Fl. intros Hl k Hk. destruct (dset_keys_in _ _ _ _ Hk) as [->|X]; [apply Hin; exact HK|apply DS; auto].
 Qed.
 
 (* ---- one iteration of the loop of _restoreEvents ---- *)
@@ -336,9 +360,9 @@ Qed.
 
 (* a new instance reads the pickle: on an emptied schedule (after die(), or in a new process) *)
 Lemma load_m s c0 : minv s -> p_loaded s = false ->
-  minv (p_load (PS (p_sched s) c0 (p_now s) (p_gen s) (p_dict s) (p_pickle s) (p_ncmd s) (p_log s) false (p_done s) (p_ign s))).
+  minv (p_load (PS (p_sched s) c0 (p_now s) (p_gen s) (p_dict s) (p_pickle s) (p_ncmd s) (p_log s) false (p_done s) (p_ign s) (p_bad s))).
 Proof.
-  intros [M U] Hl. destruct (U Hl) as [Es Ep]. destruct M as [L G SD Dn ND LT RS].
+  intros [M U] Hl. destruct (U Hl) as [Es Ep]. destruct M as [L G SD Dn ND LT RS KB DS].
   destruct L as [Q1 Q2 Q3 Q4 Q5 _ _ _ _ Q10 _ Q12 Q13 Q14 _ Q16 _].
   unfold p_load. simpl. split.
   - apply restore_all_m. rewrite Es, Ep. constructor; simpl.
@@ -350,8 +374,10 @@ Proof.
     + exact ND.
     + exact LT.
     + intros e [].
+    + intros i [].
+    + intros _ k [].
   - destruct (fold_restore_frame (p_pickle s)
-      (PS (p_sched s) c0 (p_now s) (p_gen s + 1)%N [] (p_pickle s) (p_ncmd s) (p_log s) true (p_done s) (p_ign s))) as [A _].
+      (PS (p_sched s) c0 (p_now s) (p_gen s + 1)%N [] (p_pickle s) (p_ncmd s) (p_log s) true (p_done s) (p_ign s) (p_bad s))) as [A _].
     rewrite A. simpl. discriminate.
 Qed.
 
@@ -395,7 +421,7 @@ Qed.
 (* die() of the repaired plugin: the pickle is the dict, nothing of ours stays scheduled *)
 Lemma die_m s : minv s -> minv (p_die_with true s) /\ p_loaded (p_die_with true s) = false.
 Proof.
-  intros [M U]. split; [|reflexivity]. destruct M as [L G SD Dn ND LT RS].
+  intros [M U]. split; [|reflexivity]. destruct M as [L G SD Dn ND LT RS KB DS].
   assert (E : filter (fun e => negb (dhas (s_name e) (p_dict s))) (p_sched s) = []).
   { clear - SD. induction (p_sched s) as [|e l IH]; simpl; auto.
     assert (H : dhas (s_name e) (p_dict s) = true) by (apply dhas_In; apply SD; left; auto).
@@ -411,6 +437,8 @@ Proof.
     + exact ND.
     + exact LT.
     + intros e [].
+    + exact KB.
+    + intros X. discriminate X.
   - simpl. auto.
 Qed.
 
@@ -420,7 +448,7 @@ Lemma fresh_mloop s K ev :
   (forall t c r, ev = PSingle t c r -> exists i, K = Auto i) -> (forall p c f, ev = PRepeat p c f -> exists j, K = Named j) ->
   MLOOP (snd (fresh_cmd s)) [(K, ev)].
 Proof.
-  intros [L G SD Dn ND LT RS] Hc T1 T2.
+  intros [L G SD Dn ND LT RS KB DS] Hc T1 T2.
   destruct L as [Q1 Q2 Q3 Q4 Q5 _ _ _ _ Q10 _ Q12 Q13 Q14 _ Q16 _].
   constructor; unfold fresh_cmd; simpl; auto.
   - unfold linv. simpl. constructor; auto.
@@ -441,19 +469,12 @@ Qed.
 
 Lemma weaken_m s : MLOOP s [] -> MLOOP (snd (fresh_cmd s)) [].
 Proof.
-  intros [L G SD Dn ND LT RS]. constructor; unfold fresh_cmd; simpl; auto.
+  intros [L G SD Dn ND LT RS KB DS]. constructor; unfold fresh_cmd; simpl; auto.
   - destruct L as [Q1 Q2 Q3 Q4 Q5 Q6 Q7 Q8 Q9 Q10 Q11 Q12 Q13 Q14 Q15 Q16 Q17]. unfold linv. simpl. constructor; auto.
     + intros e He. specialize (Q13 e He). lia.
     + intros kv Hk. specialize (Q14 kv Hk). lia.
     + intros kv [].
   - intros c Hc. specialize (LT c Hc). lia.
-Qed.
-
-Lemma s_add_auto_ok t cmd rem per s : (forall e i, In e (p_sched s) -> s_name e = Auto i -> (i < p_counter s)%N) ->
-  exists s1 id, s_add t None cmd rem per s = (s1, Ok id).
-Proof.
-  intros H. unfold s_add. simpl. destruct (shas (Auto (p_counter s)) (p_sched s)) eqn:E; eauto.
-  apply shas_In in E. apply in_map_iff in E. destruct E as [e [En He]]. specialize (H e _ He En). lia.
 Qed.
 
 Lemma add_m secs rem s : MLOOP s [] ->
@@ -491,7 +512,7 @@ Qed.
 Lemma remove_m key s : MLOOP s [] ->
   MLOOP (set_sched (filter (fun e => negb (name_eqb (s_name e) key)) (p_sched s)) (set_dict (ddel key (p_dict s)) s)) [].
 Proof.
-  intros [L G SD Dn ND LT RS]. constructor; simpl; auto.
+  intros [L G SD Dn ND LT RS KB DS]. constructor; simpl; auto.
   - unfold linv. simpl. apply sub_inv. exact L.
   - intros e He. apply filter_In in He. apply G. tauto.
   - intros e He. apply filter_In in He. destruct He as [He Hn]. apply ddel_keys_other; auto.
@@ -499,12 +520,22 @@ Proof.
   - intros c Hc. destruct (Dn c Hc) as (A & B & C). split; [|split; auto].
     + intro X. apply A. apply in_map_iff in X. destruct X as [e [E He]]. apply filter_In in He. rewrite <- E. apply in_map. tauto.
     + intro X. apply B. apply in_map_iff in X. destruct X as [kv [E Hk]]. apply ddel_in in Hk. rewrite <- E. apply in_map. tauto.
+  - intros i Hi. apply KB. apply in_map_iff in Hi. destruct Hi as [kv [E Hk]]. apply ddel_in in Hk. rewrite <- E. apply in_map. tauto.
+  - intros Hl k Hk. apply in_map_iff in Hk. destruct Hk as [kv [E Hk]]. apply ddel_in in Hk. destruct Hk as [Hk Hn].
+    assert (Hs : In k (snames (p_sched s))) by (apply DS; auto; rewrite <- E; apply in_map; exact Hk).
+    apply in_map_iff in Hs. destruct Hs as [e [En He]]. apply in_map_iff. exists e. split; auto.
+    apply filter_In. split; auto. apply negb_true_iff. apply name_eqb_neq. congruence.
+Qed.
+
+Lemma perm_names S e rest k : Permutation S (e :: rest) -> In k (snames S) -> k = s_name e \/ In k (snames rest).
+Proof.
+  intros P H. unfold snames in *. rewrite (Permutation_map s_name P) in H. simpl in H. destruct H; auto.
 Qed.
 
 (* ---- an event fires ---- *)
 Lemma fire_m e rest s : MLOOP s [] -> Permutation (p_sched s) (e :: rest) -> MLOOP (p_fire e (set_sched rest s)) [].
 Proof.
-  intros M P. pose proof M as [L G SD Dn ND LT RS].
+  intros M P. pose proof M as [L G SD Dn ND LT RS KB DS].
   pose proof L as [Q1 Q2 Q3 Q4 Q5 Q6 Q7 Q8 Q9 Q10 Q11 Q12 Q13 Q14 Q15 Q16 Q17].
   assert (Hrest : forall x, In x rest -> In x (p_sched s)) by (intros x Hx; eapply Permutation_in; [apply Permutation_sym; exact P|right; auto]).
   assert (He : In e (p_sched s)) by (eapply Permutation_in; [apply Permutation_sym; exact P|left; auto]).
@@ -564,7 +595,10 @@ Proof.
     + exact ND.
     + exact LT.
     + intros x _ [].
-  - rewrite Gd. destruct (dhas (s_name e) (p_dict s)) eqn:DH.
+    + exact KB.
+    + intros Hl k Hk. destruct (perm_names _ _ _ k P (DS Hl k Hk)) as [->|X]; [left; reflexivity|right; exact X].
+  - (* DELETE_BEFORE_TOKENIZE = true (table): no early exit before the delete *) rewrite andb_false_r.
+    rewrite Gd. destruct (dhas (s_name e) (p_dict s)) eqn:DH.
     + (* the closure deletes its entry from the live dict: the request is gone from schedule and dict *)
       constructor; simpl.
       * unfold linv. simpl. apply R0; [intros kv Hk; apply ddel_in in Hk; tauto|apply NoDup_map_filter; auto].
@@ -580,6 +614,10 @@ Proof.
       * constructor; auto.
       * intros c [<-|Hc]; auto.
       * intros x _ [].
+      * intros i Hi. apply KB. apply in_map_iff in Hi. destruct Hi as [kv [E Hk]]. apply ddel_in in Hk. rewrite <- E. apply in_map. tauto.
+      * intros Hl k Hk. apply in_map_iff in Hk. destruct Hk as [kv [E Hk]]. apply ddel_in in Hk. destruct Hk as [Hk Hn].
+        assert (Hs : In k (snames (p_sched s))) by (apply DS; auto; rewrite <- E; apply in_map; exact Hk).
+        destruct (perm_names _ _ _ k P Hs) as [X|X]; [congruence|exact X].
     + assert (Cdict : ~ In (s_cmd e) (dcmds (p_dict s))).
       { intro X. apply in_map_iff in X. destruct X as [kv [E Hk]]. pose proof (Q10 e kv He Hk E) as Kn.
         assert (dhas (s_name e) (p_dict s) = true) by (apply dhas_In; rewrite <- Kn; apply in_map; exact Hk). congruence. }
@@ -595,6 +633,9 @@ Proof.
         -- constructor; auto.
         -- intros c [<-|Hc]; auto.
         -- intros x _ [].
+        -- exact KB.
+        -- intros Hl k Hk. destruct (perm_names _ _ _ k P (DS Hl k Hk)) as [X|X]; [|exact X].
+           exfalso. subst k. apply dhas_In in Hk. congruence.
       * constructor; simpl.
         -- unfold linv. simpl. apply R0; auto.
         -- intros x Hx. auto.
@@ -604,6 +645,9 @@ Proof.
         -- exact ND.
         -- exact LT.
         -- intros x _ [].
+        -- exact KB.
+        -- intros Hl k Hk. destruct (perm_names _ _ _ k P (DS Hl k Hk)) as [X|X]; [|exact X].
+           exfalso. subst k. apply dhas_In in Hk. congruence.
 Qed.
 
 Lemma loop_m fuel : forall s, MLOOP s [] -> MLOOP (p_loop fuel s) [].
@@ -616,6 +660,7 @@ Qed.
 Lemma p_fire_frame e s : p_loaded (p_fire e s) = p_loaded s /\ p_pickle (p_fire e s) = p_pickle s /\ p_dict s = p_dict s.
 Proof.
   unfold p_fire. destruct (s_period e); simpl; auto.
+  match goal with |- context [if ?c then s else _] => destruct c end; auto.
   destruct (N.eqb (s_gen e) (p_gen s)); simpl; auto.
   destruct (dhas (s_name e) (p_dict s)); simpl; auto. destruct (s_rem e); simpl; auto.
 Qed.
@@ -632,7 +677,7 @@ Proof.
 Qed.
 
 Lemma eta_unloaded s : p_loaded s = false ->
-  PS (p_sched s) (p_counter s) (p_now s) (p_gen s) (p_dict s) (p_pickle s) (p_ncmd s) (p_log s) false (p_done s) (p_ign s) = s.
+  PS (p_sched s) (p_counter s) (p_now s) (p_gen s) (p_dict s) (p_pickle s) (p_ncmd s) (p_log s) false (p_done s) (p_ign s) (p_bad s) = s.
 Proof. destruct s; simpl. intros ->. reflexivity. Qed.
 
 Lemma p_add_loaded t c rem nm s : p_loaded (fst (p_add t c rem nm s)) = p_loaded s.
@@ -678,13 +723,20 @@ Proof.
     { unfold s1. destruct (p_loaded s) eqn:Ld; [apply die_m; exact MU|split; [exact MU|auto]]. }
     destruct H1 as [M1 L1]. destruct (proj2 M1 L1) as [Es _].
     pose proof (load_m s1 0%N M1 L1) as X. rewrite Es in X. exact X.
-  - (* advance *) split; [|exact U]. destruct M as [L G SD Dn ND LT RS]. constructor; simpl; auto.
+  - (* advance *) split; [|exact U]. destruct M as [L G SD Dn ND LT RS KB DS]. constructor; simpl; auto.
   - (* run *) split; [apply loop_m; auto|]. rewrite loop_loaded. intros Hl. destruct (U Hl) as [Es Ep].
     rewrite (loop_unloaded _ s Es). auto.
   - (* unload *) destruct (p_loaded s) eqn:Ld; [|exact MU]. apply die_m. exact MU.
   - (* load *) destruct (p_loaded s) eqn:Ld; [exact MU|].
     pose proof (load_m s (p_counter s) MU Ld) as X. rewrite (eta_unloaded _ Ld) in X. exact X.
-  - (* ignore *) split; [|exact U]. destruct M as [L G SD Dn ND LT RS]. constructor; simpl; auto.
+  - (* ignore *) split; [|exact U]. destruct M as [L G SD Dn ND LT RS KB DS]. constructor; simpl; auto.
+  - (* add a request whose command does not tokenize: scheduling is the same *)
+    set (s0 := PS (p_sched s) (p_counter s) (p_now s) (p_gen s) (p_dict s) (p_pickle s) (p_ncmd s) (p_log s) (p_loaded s) (p_done s) (p_ign s) (p_ncmd s :: p_bad s)).
+    assert (M0 : MLOOP s0 []) by (destruct M as [L G SD Dn ND LT RS KB DS]; constructor; simpl; auto).
+    change (p_loaded s0) with (p_loaded s). destruct (p_loaded s) eqn:Ld.
+    + change (minv (fst (p_add (p_now s0 + secs) (p_ncmd s0) false None (snd (fresh_cmd s0))))).
+      split; [apply (add_m secs false s0 M0)|]. rewrite p_add_loaded. simpl. congruence.
+    + split; [apply weaken_m; auto|]. simpl. exact U.
 Qed.
 
 Lemma pinit_m : minv pinit.
@@ -698,6 +750,8 @@ Proof.
   - constructor.
   - intros c [].
   - intros e [].
+  - intros i [].
+  - intros _ k [].
 Qed.
 
 Lemma prun_ops_m ops : forall s, minv s -> minv (prun_ops_with true ops s).
@@ -730,7 +784,7 @@ Qed.
 
 Lemma plugin_live ops e :
   let s := prun_ops ops pinit in In e (p_sched s) -> s_gen e = p_gen s /\ In (s_name e) (map fst (p_dict s)).
-Proof. intros s H. destruct (proj1 (reach_m ops)) as [_ G SD _ _ _ _]. split; [apply G; exact H|apply SD; exact H]. Qed.
+Proof. intros s H. destruct (proj1 (reach_m ops)) as [_ G SD _ _ _ _ _ _]. split; [apply G; exact H|apply SD; exact H]. Qed.
 
 Lemma plugin_listed_id ops e kv :
   let s := prun_ops ops pinit in
@@ -759,3 +813,28 @@ Qed.
 Example unload_load_twice_old_die :
   p_done (prun_ops_with false [QAdd 2; QUnload; QAdvance 5; QRun; QLoad; QAdvance 1; QRun] pinit) = [0%N; 0%N].
 Proof. vm_compute. reflexivity. Qed.
+
+(* ---- "fires at least once", the part carried by the invariant ---- *)
+(* while the plugin is loaded every listed request has a schedule entry under its id (and, plugin_live, that entry is a
+   closure of the live instance): with run()'s liveness (Props.C18_due_executed / C18_run_drains for src/schedule.py)
+   a listed request whose time has passed fires in the next run() *)
+Lemma plugin_listed_scheduled ops k :
+  let s := prun_ops ops pinit in
+  p_loaded s = true -> In k (map fst (p_dict s)) -> In k (map s_name (p_sched s)).
+Proof. intros s Hl Hk. apply (m_ds _ _ (proj1 (reach_m ops)) Hl k Hk). Qed.
+
+(* while it is unloaded nothing of it is scheduled and the pickle holds exactly what was listed: nothing is lost *)
+Lemma plugin_unloaded_pickled ops :
+  let s := prun_ops ops pinit in p_loaded s = false -> p_sched s = [] /\ p_pickle s = p_dict s.
+Proof. intros s. apply (proj2 (reach_m ops)). Qed.
+
+(* listed ids are below the schedule's counter: a new automatic id never overwrites a listed request *)
+Lemma plugin_ids_bounded ops i :
+  let s := prun_ops ops pinit in In (Auto i) (map fst (p_dict s)) -> (i < p_counter s)%N.
+Proof. intros s. apply (m_kb _ _ (proj1 (reach_m ops))). Qed.
+
+(* C18.F27 repaired: a request whose command does not tokenize fires once, leaves the list, and is not rescheduled *)
+Example untokenizable_fires_once :
+  let s := prun_ops [QAddBad 2; QAdd 3; QAdvance 4; QRun; QReload; QAdvance 1; QRun; QRestart; QAdvance 1; QRun] pinit in
+  p_done s = [1%N; 0%N] /\ map snd (p_log s) = [1%N] /\ p_dict s = [] /\ p_sched s = [].
+Proof. vm_compute. repeat split. Qed.
